@@ -299,7 +299,7 @@ func (x *fnv) execAssign(s *State, st *ast.AssignStmt) {
 				panic(unsupported("tuple assignment from unary %s", r.Op))
 			}
 			ch := x.eval(s, r.X)
-			v := x.chanRecv(s, ch, r.Pos())
+			v := x.chanRecv(s, ch, r.Pos(), types.ExprString(r.X))
 			ok := c.Fresh("recv_ok", SBool)
 			vals = []Value{v, {T: types.Typ[types.Bool], Term: ok}}
 		default:
@@ -551,6 +551,9 @@ func (x *fnv) collectWrites(n ast.Node, w *writeSet) {
 			if x.fc != nil {
 				name := types.ExprString(nd.Fun)
 				for _, at := range x.fc.Ats {
+					if at.Kind == "gadd" && at.Callee == name {
+						w.regions["GHOST|"+at.Ghost] = true
+					}
 					if at.Kind == "ghost" && at.Callee == name {
 						if w.ghosts == nil {
 							w.ghosts = map[string]bool{}
@@ -840,9 +843,9 @@ func (x *fnv) havocLoop(s *State, w *writeSet, lp *loopCtx, tag string) []string
 			}
 		}
 		hm := c.Havoc(m, tag, func(ref, idx *Term) *Term {
-			keep := []*Term{c.Le(ref, headTop)}
+			keep := []*Term{c.Le(x.ownerOf(rn, ref), headTop)}
 			for _, tg := range ts {
-				keep = append(keep, c.Not(tg.match(ref, idx)))
+				keep = append(keep, c.Not(x.matchIn(tg, rn, ref, idx)))
 			}
 			return c.And(keep...)
 		})
@@ -954,10 +957,10 @@ func (x *fnv) loopFrame(head, end *State, lp *loopCtx, regions []string, pos tok
 		if mh.Arity == 2 {
 			idx = c.Fresh("fr_idx", SInt)
 		}
-		pre := []*Term{c.Le(ref, lp.preTop), c.Ge(ref, c.Int(0))}
+		pre := []*Term{c.Le(x.ownerOf(rn, ref), lp.preTop), c.Ge(ref, c.Int(0))}
 		for _, tg := range targets {
 			if regionHasPrefix(rn, tg.prefix) {
-				pre = append(pre, c.Not(tg.match(ref, idx)))
+				pre = append(pre, c.Not(x.matchIn(tg, rn, ref, idx)))
 			}
 		}
 		g := c.Implies(c.And(pre...), c.Eq(c.Read(me, ref, idx), c.Read(mh, ref, idx)))
@@ -1314,10 +1317,20 @@ func (x *fnv) execGo(s *State, st *ast.GoStmt) {
 	x.evalCall(s, call)
 }
 
-func (x *fnv) chanRecv(s *State, ch Value, pos token.Pos) Value {
+func (x *fnv) chanRecv(s *State, ch Value, pos token.Pos, text string) Value {
 	et := ch.T.Underlying().(*types.Chan).Elem()
 	x.assumeNote("channel operations are ghost: a receive yields an arbitrary value (channel axioms trusted)")
-	return x.h.freshValue(s, et, "recv")
+	v := x.h.freshValue(s, et, "recv")
+	if x.fc != nil {
+		if cl := x.fc.Recvs[text]; cl != nil {
+			env := x.newSpecEnv(s, x.entry, x.pkg.PkgPath)
+			x.bindLocals(env, nil)
+			env.vars["value"] = v
+			s.Assume(env.assumption(cl.Expr))
+			x.assumeNote("channel invariant assumed for values received from " + text + ": " + cl.Src)
+		}
+	}
+	return v
 }
 
 func (x *fnv) chanSend(s *State, ch, v Value, pos token.Pos) {
